@@ -31,6 +31,88 @@ def merge(base, add):
     m.update(add)
     return m
 
+def jtok_lit(b):
+    """template literal for a scalar/array base, None when it has no literal spelling used here"""
+    import json
+    if isinstance(b, str):
+        return json.dumps(b, ensure_ascii=False)
+    if isinstance(b, bool):
+        return 'true' if b else 'false'
+    if b is None:
+        return 'null'
+    if isinstance(b, int):
+        return str(b)
+    return None
+
+class PBMissing(Exception):
+    pass
+
+def pb_body(rng, depth, callable_, allow_pb):
+    """a body as a list of nodes: ('t', s) | ('leaf',) | ('pb',) | ('call', name, body)"""
+    out = []
+    for _ in range(rng.randint(1, 4)):
+        r = rng.random()
+        if r < 0.3:
+            out.append(('t', rng.choice('abcdefg')))
+        elif r < 0.45:
+            out.append(('leaf',))
+        elif r < 0.75 and allow_pb:
+            out.append(('pb',))
+        elif depth > 0 and callable_:
+            nm = rng.choice(callable_)
+            out.append(('call', nm, pb_body(rng, depth - 1, callable_, allow_pb)))
+        else:
+            out.append(('t', rng.choice('xyz')))
+    return out
+
+def pb_src(nodes):
+    s = ''
+    for n in nodes:
+        if n[0] == 't':
+            s += n[1]
+        elif n[0] == 'leaf':
+            s += '{{> leaf}}'
+        elif n[0] == 'pb':
+            s += '{{> @partial-block}}'
+        else:
+            s += '{{#> %s}}%s{{/%s}}' % (n[1], pb_src(n[2]), n[1])
+    return s
+
+def pb_gen(rng):
+    names = ['L1', 'L2', 'L3']
+    trees = {}
+    for i, nm in enumerate(names):
+        trees[nm] = [('t', '<' + nm[1])] + pb_body(rng, 2, names[i + 1:], True) + [('t', '>')]
+    main_tree = pb_body(rng, 3, names + ['nolayout'], False)
+    pb_gen.trees = trees
+    parts = {nm: pb_src(t) for nm, t in trees.items()}
+    parts['leaf'] = 'L'
+    pb_gen.main = main_tree
+    return parts, pb_src(main_tree)
+
+def pb_eval(parts, main):
+    trees = pb_gen.trees
+    def ev(nodes, pb, fuel):
+        if fuel <= 0:
+            raise RecursionError
+        out = ''
+        for n in nodes:
+            if n[0] == 't':
+                out += n[1]
+            elif n[0] == 'leaf':
+                out += 'L'
+            elif n[0] == 'pb':
+                if pb is None:
+                    raise PBMissing()
+                out += ev(pb[0], pb[1], fuel - 1)
+            else:
+                if n[1] in trees:
+                    out += ev(trees[n[1]], (n[2], pb), fuel - 1)
+                else:
+                    out += ev(n[2], pb, fuel - 1)     # no such partial: the block body is the default
+        return out
+    return ev(pb_gen.main, None, 200)
+
 def gen_cases(rng, tier, scale):
     cases = []
     n = (300 if tier == 'quick' else 5000) * scale
@@ -107,6 +189,45 @@ def gen_cases(rng, tier, scale):
             cases.append(rcase(f'n{kk}', tpl, D, partials=parts, entry=0, kind='fixed', exp=('ok', 'm' + fmt(show_ctx)), grp=f'n{kk}',
                                tags=['nested:' + of + '/' + inf]))
             kk += 1
+    # non-object contexts with hash arguments: strings (incl. multi-byte characters) become objects keyed by
+    # CHARACTER position, arrays by index, scalars give an empty base; the body enumerates what it sees
+    SHOW = '{{#each this}}{{@key}}={{this}};{{/each}}|{{[0]}}{{[1]}}{{[2]}}{{[3]}}|{{k}}'
+    BASES = ['aé€b', 'x', '', '日本語!', 'a\U0001F600b', [1, 'é', None], [], 5, True, None, 'plain']
+    nb = 0
+    for b in BASES:
+        for hash_src, add in (('k=1', {'k': 1}), ('k="é" j=this', None), ('', {})):
+            d = {'s': b, 'l': [b]}
+            if add is None:
+                hash_src, add = 'k="é" j=2', {'k': 'é', 'j': 2}
+            lit = jtok_lit(b)
+            forms = [('{{> p s %s}}' % hash_src, 'path')]
+            if lit is not None:
+                forms.append(('{{> p %s %s}}' % (lit, hash_src), 'literal'))
+            forms.append(('{{#each l}}{{> p %s}}{{/each}}' % hash_src, 'current'))
+            forms.append(('{{#with s}}{{> p %s}}{{/with}}' % hash_src, 'with'))
+            for call, how in forms:
+                if how == 'with' and not b:
+                    continue            # a falsy value makes `with` render its (absent) else branch
+                grp = f'nb{nb}'
+                nb += 1
+                cases.append(rcase(f'{grp}a', 'L:' + call + ':R', d, partials={'p': SHOW}, entry=0, kind='call', grp=grp, form='nonobj-' + how,
+                                   tags=['nonobj-' + how]))
+                cases.append(rcase(f'{grp}b', 'L:' + SHOW + ':R', merge(b, add), entry=4, kind='direct', grp=grp, form='nonobj-' + how, tags=['direct']))
+    # nested partial blocks: layouts L1..L3 (Li may wrap only Lj, j > i), a leaf partial, bodies built from text,
+    # plain partial calls, `{{> @partial-block}}` (0..3 uses) and nested block calls <= 3 deep; expectation from the
+    # reference semantics below (a block body is a closure: its own `@partial-block` is the one current where the
+    # block was written)
+    npb = (120 if tier == 'quick' else 3000) * scale
+    for k in range(npb):
+        parts, main = pb_gen(rng)
+        try:
+            exp = ('ok', pb_eval(parts, main))
+        except PBMissing:
+            exp = ('err', 'PartialNotFound', x('@partial-block'))
+        cases.append(rcase(f'pb{k}', main, {}, partials=parts, entry=0, kind='fixed', exp=exp, grp=f'pb{k}', tags=['pbnest']))
+    # witness of the repaired finding F21 (two levels of forwarding recursed without bound)
+    cases.append(rcase('f21w', '{{#> l2}}X{{/l2}}', {}, partials={'l2': '<{{#> l3}}{{#> l3}}{{> @partial-block}}{{/l3}}{{/l3}}>', 'l3': '[{{> @partial-block}}]'},
+                       entry=0, kind='fixed', exp=('ok', '<[[X]]>'), grp='f21w', tags=['F21']))
     # the two witnesses of findings F3 and F4
     cases.append(rcase('f3w', '{{#> p}}D{{/p}}', {}, partials={'p': '<{{> @partial-block}}{{> @partial-block}}>'}, entry=0,
                        kind='fixed', exp=('ok', '<DD>'), grp='f3w', tags=['F3']))
@@ -168,8 +289,3 @@ def relevant_difference(c, mo, io):
     a, b = res_of(mo), res_of(io)
     return a['kind'] != b['kind'] or a.get('out') != b.get('out') or a.get('reason') != b.get('reason')
 
-def known_F3_partial_block_twice(c, mo, io):
-    return c['line'].startswith('f3w ')
-
-def known_F4_self_include_after_block(c, mo, io):
-    return c['line'].startswith('f4w ')
